@@ -334,9 +334,22 @@ SUSP_GOALS = {
                                      {"a": "Suspend", "s": "ROOT", "u": "u1", "on": True}, _pub("s2", "g1", "c2"), _pub("s2", "p12", "c2"),
                                      {"a": "Suspend", "s": "ROOT", "u": "u1", "on": False}, _pub("s2", "g1"), _pub("s2", "p12")]),
 }
+# history and deletions requested by root on behalf of a user whose own soft deletions exist (C04); "ROOT" = the root session
+OBO_GOALS = {
+    "obo_history_after_soft_deletes": ('st.topics["g1"].exists /\\ st.topics["g1"].seq >= 3 /\\ st.subs["g1"]["u2"].st = "live" /\\ "R" \\in Eff(st.subs["g1"]["u2"]) '
+                                       '/\\ (\\E i \\in DOMAIN st.dlog["g1"] : st.dlog["g1"][i]["for"] = "u2")',
+                                       [{"a": "Sub", "s": "ROOT", "t": "g1", "mode": ["-"], "chan": False, "bg": False, "obo": "u2"},
+                                        {"a": "Get", "s": "ROOT", "t": "g1", "what": "data", "since": 0, "before": 0, "limit": 0, "chan": False, "obo": "u2"},
+                                        {"a": "Get", "s": "ROOT", "t": "g1", "what": "del", "since": 0, "before": 0, "limit": 0, "chan": False, "obo": "u2"},
+                                        {"a": "Sub", "s": "ROOT", "t": "g1", "mode": ["-"], "chan": False, "bg": False},
+                                        {"a": "DelMsg", "s": "ROOT", "t": "g1", "ranges": [[3, 0]], "hard": False, "chan": False, "obo": "u2"},
+                                        {"a": "Get", "s": "ROOT", "t": "g1", "what": "data", "since": 0, "before": 0, "limit": 0, "chan": False, "obo": "u2"},
+                                        {"a": "Get", "s": "ROOT", "t": "g1", "what": "data", "since": 0, "before": 0, "limit": 0, "chan": False, "obo": "u1"},
+                                        {"a": "Get", "s": "ROOT", "t": "g1", "what": "del", "since": 0, "before": 0, "limit": 0, "chan": False, "obo": "u2"}]),
+}
 
 
-def goal_behaviours(ctx, users, sess, topics, names=None, maxsubs=3, marks=False, perms=False, suspend_root=None):
+def goal_behaviours(ctx, users, sess, topics, names=None, maxsubs=3, marks=False, perms=False, suspend_root=None, obo_root=None):
     import concurrent.futures
     goals = dict(GOALS)
     p2p = "p12" in topics
@@ -346,6 +359,9 @@ def goal_behaviours(ctx, users, sess, topics, names=None, maxsubs=3, marks=False
         goals.update(MARK_GOALS)
     if perms:
         goals.update(PERM_GOALS)
+    if obo_root:
+        for k, (e, tail) in OBO_GOALS.items():
+            goals[k] = (e, json.loads(json.dumps(tail).replace('"ROOT"', json.dumps(obo_root))))
     if suspend_root:
         for k, (e, tail) in SUSP_GOALS.items():
             if "p12" in e and not p2p:
@@ -356,19 +372,21 @@ def goal_behaviours(ctx, users, sess, topics, names=None, maxsubs=3, marks=False
     import re as _re
     def _applies(nm):
         txt = goals[nm][0] + json.dumps(goals[nm][1])
-        return all(x in users for x in _re.findall(r'"(u\d+)"', txt)) and all(x in sess or x == suspend_root for x in _re.findall(r'"(s\d+)"', txt))
+        return all(x in users for x in _re.findall(r'"(u\d+)"', txt)) and all(x in sess or x in (suspend_root, obo_root) for x in _re.findall(r'"(s\d+)"', txt))
     names = [nm for nm in names if _applies(nm)]
     consts = mc_consts(users, sess, topics, DEV_BUILT, ["-", "N", "JR", "JRS", "JRA", "JRASO"], ["-", "N", "JR", "JRS", "JRAS", "JRASO"],
                        ["NewGrp", "Sub", "Leave", "SetSelf", "SetOther", "DelSub", "DelTopic", "Unload"], [], maxsubs=maxsubs)
     consts_p2p = mc_consts(users, sess, topics, DEV_BUILT, ["-"], ["-"], ["P2P"], [], maxseq=3, maxsubs=maxsubs)
     consts_susp = mc_consts(users, sess, topics, DEV_BUILT, ["-", "JRW"], ["-", "JRW"], ["NewGrp", "Sub", "P2P"], [], maxseq=1, maxsubs=maxsubs)
+    consts_obo = mc_consts(users, sess, topics, DEV_BUILT, ["-", "JRW"], ["-", "JRW"], ["NewGrp", "Sub", "Pub", "DelMsg"], [], maxseq=3, maxsubs=maxsubs,
+                           delranges=[[(1, 0)], [(2, 0)]], maxdel=2)
     consts_perms = mc_consts(users, sess, topics, DEV_BUILT, ["-", "JWP", "JRW"], ["-", "JRWP"], ["NewGrp", "Sub", "SetSelf"], [], maxsubs=maxsubs)
     consts_marks = mc_consts(users, sess, topics, DEV_BUILT, ["-", "JRW"], ["-", "JRW"], ["NewGrp", "Sub", "Pub", "Note"], [], maxseq=3, maxsubs=maxsubs)
 
     def one(name):
         expr, tail = goals[name]
         mod = "Goal_" + name
-        cs = consts_susp if name in SUSP_GOALS else consts_p2p if name in P2P_GOALS else consts_marks if name in MARK_GOALS else consts_perms if name in PERM_GOALS else consts
+        cs = consts_obo if name in OBO_GOALS else consts_susp if name in SUSP_GOALS else consts_p2p if name in P2P_GOALS else consts_marks if name in MARK_GOALS else consts_perms if name in PERM_GOALS else consts
         defs = "\n".join("c_%s == %s" % (k, v) for k, v in cs.items())
         with open(os.path.join(ctx.specdir, mod + ".tla"), "w") as fh:
             fh.write("---- MODULE %s ----\nEXTENDS TopicCore_MC\n%s\nNotGoal == ~(%s)\n====\n" % (mod, defs, expr))
